@@ -470,6 +470,50 @@ func c14r8(c *RC) {
 		sel, ok := ast.Unparen(l[0].rhs).(*ast.SelectorExpr)
 		return ok && expr(sel.X) == arms[role].val && pr.fieldQName(pk.FieldOf(sel)) == field
 	}
+	// ... on every path through the done arm (a task that ends on a lost machine
+	// also returns its demand)
+	if l := byRole["done"]; len(l) == 1 {
+		fl0 := pr.Flow(fn)
+		cc := arms["done"].cc
+		first, okF := Loc{}, false
+		var firstPos token.Pos
+		for _, b := range fl0.G.Blocks {
+			if !b.Live {
+				continue
+			}
+			for i, nd := range b.Nodes {
+				if len(cc.Body) > 0 && nd.Pos() >= cc.Body[0].Pos() && nd.Pos() < cc.End() && (!okF || nd.Pos() < firstPos) {
+					first, okF, firstPos = Loc{b, i}, true, nd.Pos()
+				}
+			}
+		}
+		always := okF
+		var tr []string
+		if okF {
+			fl0.Walk(first, "", nil, Visitor{NoFacts: true,
+				Node: func(n ast.Node, x string, s *Step) (string, bool) {
+					if n.Pos() < cc.Pos() || n.Pos() >= cc.End() {
+						if x != "sub" {
+							always = false
+							tr = s.Trail()
+						}
+						return x, true
+					}
+					if n == ast.Node(l[0].st) {
+						return "sub", false
+					}
+					return x, false
+				},
+				Exit: func(kind ExitKind, ret *ast.ReturnStmt, x string, s *Step) {
+					if kind != ExitPanic && x != "sub" {
+						always = false
+						tr = s.Trail()
+					}
+				}})
+		}
+		c.Check(always, fq+"|demand-released-on-every-done", pr.Pos(l[0].st.Pos()),
+			"the done arm can be left without subtracting the returned procs from the demand counter (e.g. for a task that ends on a machine already marked lost): that demand stays counted forever, and the manager later starts machines for work that no longer exists", tr...)
+	}
 	c.Check(subOf("done", "exec.machineDone.procs"), fq+"|demand-released-on-done", pr.Pos(arms["done"].cc.Pos()),
 		"the done arm does not subtract the returned procs from the demand counter exactly once: finished tasks keep counting as demand and machines are started (or kept being replaced) for work that no longer exists")
 	c.Check(subOf("cancel", "exec.scheduleRequest.procs"), fq+"|demand-released-on-cancel", pr.Pos(arms["cancel"].cc.Pos()),
@@ -1004,4 +1048,68 @@ func nodeListStr(es []ast.Expr) string {
 		parts = append(parts, expr(e))
 	}
 	return strings.Join(parts, ",")
+}
+
+// c15retryBudget (part of C15-R5): every failed attempt is charged to the retry
+// budget before the reader waits and tries again: the counter handed to
+// retry.Wait is incremented on the path from a failed read to that call, and
+// the reader that failed is closed and forgotten so that the next attempt
+// re-opens at the delivered offset.
+func c15retryBudget(c *RC) {
+	pr := c.P
+	fn := c.MustFn("exec.(*retryReader).Read")
+	if fn == nil {
+		return
+	}
+	fq := fn.QName()
+	var wait *ast.CallExpr
+	for _, k := range callsIn(fn.Body) {
+		if strings.HasSuffix(fn.Pkg.CalleeName(k), "retry.Wait") && len(k.Args) == 3 {
+			wait = k
+		}
+	}
+	if wait == nil {
+		c.Fail(fq+"|failed-attempts-are-charged", pr.Pos(fn.Body.Pos()), "the retrying reader no longer waits under a retry policy between attempts: a failing stream is retried without bound or delay")
+		return
+	}
+	cnt := canon(fn, wait.Args[2])
+	fl := pr.Flow(fn)
+	loc, ok := fl.LocOf(wait)
+	if !ok {
+		c.Undecide("%s: retry.Wait not in the flow graph", fq)
+		return
+	}
+	charged, tr := fl.Dominated(loc, func(n ast.Node, s *Step) bool {
+		switch x := n.(type) {
+		case *ast.IncDecStmt:
+			return x.Tok == token.INC && canon(fn, x.X) == cnt
+		case *ast.AssignStmt:
+			if len(x.Lhs) == 1 && canon(fn, x.Lhs[0]) == cnt && x.Tok == token.ADD_ASSIGN {
+				v, isC := constInt(fn.Pkg, x.Rhs[0])
+				return isC && v >= 1
+			}
+		}
+		return false
+	})
+	// the increment must lie after the failed read in the same iteration: it must not be the
+	// reset on success; require an increment (not merely any write)
+	c.Check(charged, fq+"|failed-attempts-are-charged", pr.Pos(wait.Pos()),
+		"retry.Wait is reached without the attempt counter "+cnt+" having been incremented: the retry budget is never used up, so a stream that keeps failing is retried forever instead of failing with an error once the budget is exhausted", tr...)
+	forgets, tr2 := fl.Dominated(loc, func(n ast.Node, s *Step) bool {
+		// r.reader = nil (possibly inside `if r.reader != nil {...}`): accept the enclosing if's condition node too
+		if a, ok := n.(*ast.AssignStmt); ok && len(a.Lhs) == 1 && canon(fn, a.Lhs[0]) == "$recv.reader" && expr(a.Rhs[0]) == "nil" {
+			return true
+		}
+		if x, nn, ok := func() (string, bool, bool) {
+			if e, isE := n.(ast.Expr); isE {
+				return nilTest(e)
+			}
+			return "", false, false
+		}(); ok && canonText(fn, x) == "$recv.reader" && nn {
+			return true
+		}
+		return false
+	})
+	c.Check(forgets, fq+"|failed-stream-is-reopened", pr.Pos(wait.Pos()),
+		"the reader that failed is not dropped before the next attempt: the retry reads on from a broken stream instead of re-opening at the delivered offset", tr2...)
 }
